@@ -156,6 +156,36 @@ fn check_assertion<B: StarkField>(fname: &str, c: &Case, all: &[Asr], rng: &mut 
                 }
             }
         }
+        // (3b) two assertions in one constraint set: every constraint must sit in a group whose divisor vanishes on exactly
+        // the steps of the assertion it came from (groups share one divisor among their members)
+        if c.pairs && n <= 32 {
+            let ctx2 = context::<B>(n, 2);
+            for b in all {
+                let mut bb = b.clone();
+                bb.col = 1;
+                let (basr, _) = build::<B>(&bb, rng);
+                let bsteps: Vec<usize> = {
+                    let mut v = vec![];
+                    basr.apply(n, |s, _| v.push(s));
+                    v
+                };
+                let bc2 = BoundaryConstraints::<B>::new(&ctx2, vec![asr.clone(), basr], vec![], &[B::ONE, B::ONE]);
+                let mut seen = 0;
+                for g in bc2.main_constraints() {
+                    let z = divisor_zeros(g.divisor(), n);
+                    for con in g.constraints() {
+                        seen += 1;
+                        let want = if con.column() == 0 { &c.steps } else { &bsteps };
+                        if &z != want {
+                            out.push(("pair-group-divisor".into(), format!("together with {:?} the constraint of column {} is divided by a divisor vanishing on {:?}", bb, con.column(), &z[..z.len().min(8)])));
+                        }
+                    }
+                }
+                if seen != 2 {
+                    out.push(("pair-grouping".into(), format!("two assertions produced {seen} constraints")));
+                }
+            }
+        }
         // (4) overlaps with every other well-formed assertion of this length (both columns)
         if c.pairs {
             let expected: BTreeSet<&Asr> = c.overlaps.iter().collect();
